@@ -3,7 +3,8 @@ package main
 import (
 	"fmt"
 	"math/bits"
-	"runtime"
+	"os"
+	"strconv"
 	"sync"
 
 	"github.com/openacid/low/bmtree"
@@ -110,7 +111,9 @@ func c05Shape(h int, idx int64) string {
 	// l = node length; the loop walks levels fixed..min(l, h-3)
 	loop := 0
 	end := "zero"
-	if l > h-3 {
+	if h <= 3 {
+		end = fmt.Sprintf("tbl%d", l) // the whole node comes from the table
+	} else if l > h-3 {
 		end = fmt.Sprintf("tbl%d", l-(h-3)) // the table supplies that many levels
 		if h-3-fixed > 0 {
 			loop = h - 3 - fixed
@@ -146,18 +149,21 @@ func c05WF(h int32, w uint64) bool {
 // returns (pairs tried, the first failing (h, idx) pairs).  Failing-input search only.
 func c05Sweep(lo, hi int) (uint64, [][2]int64) {
 	type chunk struct {
-		h      int32
-		from   int64
-		to     int64
+		h    int32
+		from int64
+		to   int64
 	}
 	var mu sync.Mutex
 	var bad [][2]int64
 	var total uint64
 	ch := make(chan chunk, 64)
 	var wg sync.WaitGroup
-	nw := runtime.NumCPU()
-	if nw > 16 {
-		nw = 16
+	// One worker by default: the harness is built with -cover and the coverage counters of the swept
+	// functions are shared cache lines; 4 or 16 workers were measured 8x SLOWER than 1 (20 ns per pair
+	// single-threaded, 85 s for all 2^32-33 pairs).  VERIF_C05_WORKERS overrides.
+	nw := 1
+	if v, err := strconv.Atoi(os.Getenv("VERIF_C05_WORKERS")); err == nil && v > 0 {
+		nw = v
 	}
 	for k := 0; k < nw; k++ {
 		wg.Add(1)
@@ -327,6 +333,9 @@ func genC05(g *Gen) {
 	lo, hi := 13, 21
 	if g.Thorough {
 		lo, hi = 0, 30
+	}
+	if v := os.Getenv("VERIF_C05_SWEEP"); v != "" { // experiments: "lo,hi"
+		fmt.Sscanf(v, "%d,%d", &lo, &hi)
 	}
 	total, bad := c05Sweep(lo, hi)
 	g.Stats["sweep-pairs"] = int(total)
